@@ -24,6 +24,7 @@ VERIF = os.path.dirname(os.path.dirname(os.path.abspath(__file__)))
 # searches for the proof (which facts are in scope), never what is assumed.
 # exec_allows_no_decreases_clause: the fn is checked for partial correctness only (its loops get no termination proof);
 # the unit must report termination of that fn as NOT decided.
+HINT_KINDS = ('before', 'after', 'inarm', 'tail', 'head', 'loophead', 'loopend')
 ALLOWED_FN_ATTRS = ('#[verifier::loop_isolation(false)]', '#[verifier::spinoff_prover]', '#[verifier::exec_allows_no_decreases_clause]')
 
 LABEL_RE = re.compile(r'\[((?:C\d\d|[a-z]+)\.[A-Za-z0-9_.\-]+)((?:\|C\d\d)*)\]')
@@ -1217,6 +1218,8 @@ class Gen:
         self.regions = []      # {name, line0, line1, kind, props, src}
         self.labels = []       # {label, line0, line1, region}
         self.dropped = []      # rewrite log
+        self.hint_lines = []   # generated line ranges of proof-hint annotations (for the hint-drop retry of vp/run.py)
+        self.skip_hints = set()
         self.sources = []      # functions under contract: file:lines sha
         self.degraded = {}         # region -> lost hint anchors (@before/@after): hint skipped, failures there are undecided
         self.inject_false = None   # vacuity self-test: region name whose body gets `assert(false)` at its end
@@ -1383,6 +1386,11 @@ class Gen:
                     expanded.append(a)
             it = dataclasses.replace(it, anns=expanded)
         for a in it.anns:
+            if a.kind in HINT_KINDS and (region, a.line) in getattr(self, 'skip_hints', set()):
+                # the hint text does not compile against the changed code (it names a local that is gone): it is dropped and
+                # the fn degraded -- its failures are undecided, every other fn of the unit is still decided (driven by vp/run.py)
+                self.degraded.setdefault(region, []).append(f'{a.kind} hint of sidecar line {a.line} dropped: it does not compile against this code')
+                continue
             if a.kind == 'ret':
                 if fp['arrow'] is None:
                     raise SpecError(f'LOST-ANCHOR: {region}: @ret but fn has no return type')
@@ -1515,7 +1523,7 @@ class Gen:
                     self.degraded.setdefault(region, []).append(f'{a.kind} {n} not found ({len(loops)} loops)')
                     continue
                 kw, ob = loops[n - 1]
-                pending_inserts.append((ct[ob].end, '\n' + a.text.rstrip() + '\n', 'loophead'))
+                pending_inserts.append((ct[ob].end, '\n' + a.text.rstrip() + '\n', f'hint:{a.line}'))
             elif a.kind == 'loopend':
                 loops = find_loops(tx, fp['bopen'] + 1, fp['bclose'])
                 n = int(a.arg)
@@ -1525,7 +1533,7 @@ class Gen:
                     self.degraded.setdefault(region, []).append(f'{a.kind} {n} not found ({len(loops)} loops)')
                     continue
                 kw, ob = loops[n - 1]
-                pending_inserts.append((ct[rl.match_close(ct, ob)].start, '\n' + a.text.rstrip() + '\n', 'loopend'))
+                pending_inserts.append((ct[rl.match_close(ct, ob)].start, '\n' + a.text.rstrip() + '\n', f'hint:{a.line}'))
             elif a.kind == 'tryforeach':
                 # R17: `RECV.try_for_each(|PAT| BODY)` (closure result type Result<(), E>)  ==>
                 #     { let mut __r = Ok(()); for PAT in [binder:] RECV INV { [HINTS] match (BODY) { Ok(()) => {}, Err(__e) => { __r = Err(__e); break; } } } __r }
@@ -1583,7 +1591,7 @@ class Gen:
                 pos = body_s + body.index(a.arg)
                 if a.kind == 'after':
                     pos += len(a.arg)
-                pending_inserts.append((pos, '\n' + a.text.rstrip() + '\n', a.kind))
+                pending_inserts.append((pos, '\n' + a.text.rstrip() + '\n', f'hint:{a.line}'))
             elif a.kind == 'inarm':
                 # `@inarm <<text at the start of an arm's expression>>`: hint text for an expression-bodied match arm `P => E,`,
                 # where no statement position exists: `P => { TEXT E },` (R3; a block around an expression means the same).
@@ -1602,12 +1610,12 @@ class Gen:
                     if ct[e_].kind == 'punct' and ct[e_].text in rl.OPEN: e_ = rl.match_close(ct, e_) + 1; continue
                     if ct[e_].kind == 'punct' and ct[e_].text in (',', '}'): break
                     e_ += 1
-                pending_inserts.append((ct[q].start, '{\n' + a.text.rstrip() + '\n', 'inarm'))
+                pending_inserts.append((ct[q].start, '{\n' + a.text.rstrip() + '\n', f'hint:{a.line}'))
                 pending_inserts.append((ct[e_ - 1].end, ' }', 'inarm'))
             elif a.kind == 'tail':
-                pending_inserts.append((ct[fp['bclose']].start, '\n' + a.text.rstrip() + '\n', 'tail'))
+                pending_inserts.append((ct[fp['bclose']].start, '\n' + a.text.rstrip() + '\n', f'hint:{a.line}'))
             elif a.kind == 'head':
-                pending_inserts.append((ct[fp['bopen']].end, '\n' + a.text.rstrip() + '\n', 'head'))
+                pending_inserts.append((ct[fp['bopen']].end, '\n' + a.text.rstrip() + '\n', f'hint:{a.line}'))
             elif a.kind == 'closure':
                 body_s, body_e = ct[fp['bopen']].end, ct[fp['bclose']].start
                 body = src[body_s:body_e]
@@ -1865,6 +1873,9 @@ class Gen:
             else:
                 text = inserts[int(piece)][1]
                 text2 = label_lines(text, self.labels, cur_line, region)
+                tag_ = inserts[int(piece)][2] if len(inserts[int(piece)]) > 2 else ''
+                if isinstance(tag_, str) and tag_.startswith('hint:'):
+                    self.hint_lines.append({'region': region, 'ann_line': int(tag_[5:]), 'line0': cur_line, 'line1': cur_line + text2.count('\n')})
                 buf.append(text2); cur_line += text2.count('\n')
         self.emit(''.join(buf))
         if imp is not None:
@@ -2324,7 +2335,7 @@ class Gen:
         return ''.join(self.out)
 
 
-def generate(unit_name, inject_false=None, extra_consts=None, inline=None):
+def generate(unit_name, inject_false=None, extra_consts=None, inline=None, skip_hints=None):
     path = os.path.join(VERIF, 'specs', 'units', unit_name + '.vspec')
     u = parse_vspec(path)
     # R31 (automatic, driven by vp/run.py): a `const NAME` of the same source file that extracted text refers to but the sidecar
@@ -2334,6 +2345,7 @@ def generate(unit_name, inject_false=None, extra_consts=None, inline=None):
         u.parts.insert(first_item, ('item', ItemSpec(file=cfile, kind='const', sel=cname, props=[], opts={'auto': '1'})))
     g = Gen(u)
     g.inject_false = inject_false
+    g.skip_hints = set(skip_hints or [])
     for (iline, cfile, sel, form) in (inline or []):     # R32 (automatic, driven by vp/run.py): see inline_helper
         g.inline.setdefault(iline, []).append((cfile, sel, form))
     text = g.build()
